@@ -11,8 +11,11 @@
 (*   kinds on the same mode is rejected with an error.                                          *)
 (*                                                                                              *)
 (* A specification is  [n |-> order, items |-> <<item, ...>>],  one item per given keyword,     *)
-(*   item = [kind, form, modes |-> increasing sequence of 0-based modes (<<>> for scalar),      *)
+(*   item = [kind, form, modes |-> sequence of distinct 0-based modes (<<>> for scalar),        *)
 (*           pars |-> parameters aligned with modes (one entry for scalar)]                     *)
+(*   A list is positional, so its modes are in increasing order.  A dict is an ORDERED          *)
+(*   collection of (mode, parameter) pairs in Python: modes is the key order the user wrote,    *)
+(*   ANY order, and the meaning must not depend on it (theorem KeyOrderIrrelevant below).       *)
 (* Parameters are small positive integers p; the harness passes True for the boolean kinds,     *)
 (* int(p) for the sparsity counts, float(p) for the radii and p/10 for the penalties.           *)
 (*                                                                                              *)
@@ -22,8 +25,9 @@ EXTENDS Tens, TLC
 
 CONSTANTS Orders,       \* tensor orders enumerated by the design run, e.g. {3, 4}
           SoftOrders,   \* orders for which the four penalty kinds are enumerated as well
-          WideOrders    \* orders for which two-keyword specifications range over ALL pairs of kinds
+          WideOrders,   \* orders for which two-keyword specifications range over ALL pairs of kinds
                         \* (elsewhere over the pairs of CoreKinds; single keywords: always every kind)
+          SecondKeyOrders \* "asc" / "ends": dict key orders enumerated for the SECOND keyword of a pair
 
 KindSeq == <<"non_negative", "l1_reg", "l2_reg", "l2_square_reg", "unimodality", "normalize",
              "simplex", "normalized_sparsity", "soft_sparsity", "smoothness", "monotonicity",
@@ -75,6 +79,9 @@ Register(n, items, st) ==
 Sequential(n, items) == Register(n, items, [rej |-> FALSE, tab |-> [m \in Modes(n) |-> NoneKP]])
 
 Reorder(items, p) == [j \in 1..Len(items) |-> items[p[j]]]
+\* the same dict written with its (mode, parameter) pairs in another order (p: a permutation)
+Rekey(it, p) == [kind |-> it.kind, form |-> it.form, modes |-> [j \in 1..Len(it.modes) |-> it.modes[p[j]]],
+                 pars |-> [j \in 1..Len(it.pars) |-> it.pars[p[j]]]]
 AsDict(n, it) == IF it.form = "dict" THEN it
                  ELSE LET ms == SortedSeq(ItemModes(n, it))
                       IN  [kind |-> it.kind, form |-> "dict", modes |-> ms,
@@ -98,6 +105,13 @@ MapOK(n, items) ==
           /\ ~rej => s.tab = A
     \* the three forms are notations for the same requests
     /\ Requests(n, [j \in 1..Len(items) |-> AsDict(n, items[j])]) = Requests(n, items)
+    \* KeyOrderIrrelevant: the order in which a dict lists its keys carries no meaning
+    /\ \A j \in 1..Len(items) : items[j].form = "dict" =>
+          \A p \in Permutations(1..Len(items[j].modes)) :
+             LET re == [i \in 1..Len(items) |-> IF i = j THEN Rekey(items[i], p) ELSE items[i]] IN
+             /\ Requests(n, re) = Requests(n, items)
+             /\ Rejected(n, re) = rej
+             /\ ~rej => Assign(n, re) = A
 
 \* ------------------------------------------------------------------ the enumerated domain
 KindsFor(n) == IF n \in SoftOrders THEN AllKinds ELSE HardKinds
@@ -106,18 +120,29 @@ PairKinds(n) == IF n \in WideOrders THEN KindsFor(n) ELSE CoreKinds
 DomPar(k, m) == IF k \in BoolKinds THEN 1
                 ELSE IF k \in CountKinds THEN m + 2
                 ELSE m + 1                       \* radii 1,2,3,4 ; penalties 0.1 .. 0.4
-ItemsOf(n, k) ==
+\* key orders of a dict over the mode set S: every permutation ("all"); ascending and descending
+\* ("ends"); ascending only ("asc")
+Reversed(q) == [j \in 1..Len(q) |-> q[Len(q) + 1 - j]]
+KeyOrders(S, which) ==
+    LET asc == SortedSeq(S) IN
+    IF which = "all" THEN {[j \in 1..Len(asc) |-> asc[p[j]]] : p \in Permutations(1..Len(asc))}
+    ELSE IF which = "ends" THEN {asc, Reversed(asc)}
+    ELSE {asc}
+WithPars(k, f, ms) == [kind |-> k, form |-> f, modes |-> ms, pars |-> [j \in 1..Len(ms) |-> DomPar(k, ms[j])]]
+\* per-mode parameters are DISTINCT (DomPar depends on the mode) for counts, radii and penalties
+ItemsOf(n, k, which) ==
          {[kind |-> k, form |-> "scalar", modes |-> <<>>, pars |-> <<DomPar(k, 1)>>]}
-    \cup {[kind |-> k, form |-> f, modes |-> SortedSeq(S),
-           pars |-> [j \in 1..Cardinality(S) |-> DomPar(k, SortedSeq(S)[j])]]
-             : f \in {"list", "dict"}, S \in SUBSET Modes(n)}
+    \cup {WithPars(k, "list", SortedSeq(S)) : S \in SUBSET Modes(n)}
+    \cup UNION {{WithPars(k, "dict", ms) : ms \in KeyOrders(S, which)} : S \in SUBSET Modes(n)}
+IsEndsOrder(ms) == ms = SortedSeq(SeqRange(ms)) \/ ms = Reversed(SortedSeq(SeqRange(ms)))
 
 \* structural validity (what the trace specification checks on an event; no big set is built)
 StrictlyIncreasing(s) == \A j \in 1..(Len(s) - 1) : s[j] < s[j + 1]
 ValidItem(n, it) ==
     /\ it.kind \in AllKinds /\ it.form \in Forms
     /\ \A j \in 1..Len(it.modes) : it.modes[j] \in Modes(n)
-    /\ StrictlyIncreasing(it.modes)
+    /\ Cardinality(SeqRange(it.modes)) = Len(it.modes)                 \* distinct
+    /\ it.form # "dict" => StrictlyIncreasing(it.modes)                \* a dict may list its keys in any order
     /\ IF it.form = "scalar" THEN it.modes = <<>> /\ Len(it.pars) = 1 ELSE Len(it.pars) = Len(it.modes)
     /\ \A j \in 1..Len(it.pars) : it.pars[j] \in 1..9 /\ (it.kind \in BoolKinds => it.pars[j] = 1)
 ValidSpec(n, items) ==
@@ -261,6 +286,8 @@ ASSUME /\ Feasible("non_negative", 1, W(<<<<0, 2, 1>>>>))      /\ ~Feasible("non
 \* ------------------------------------------------------------------ design run
 (* One root state per (order, first keyword in every form / no keyword): its successors are the   *)
 (* specifications with that first keyword alone and with every second keyword of a later kind      *)
+(* A single keyword is enumerated with EVERY dict key order; in a pair the first keyword has its   *)
+(* keys ascending or descending and the second as SecondKeyOrders says.                            *)
 (* (PairKinds: all kinds for WideOrders, the four CoreKinds otherwise -- the mapping never looks   *)
 (* at WHICH kind a keyword is, so this only thins the quick tier; thorough is wide everywhere).    *)
 (* One root per first column of a two-column integer factor for the predicate theorems.           *)
@@ -274,7 +301,7 @@ Columns == [1..3 -> ColVals]
 \* decomposition experiments on accepted specifications only); the trace spec recomputes it.
 SpecState(n, items) == [op |-> "spec", n |-> n, items |-> items, rej |-> Rejected(n, items)]
 
-Init == \/ cfg \in {[op |-> "root", n |-> n, first |-> <<it>>] : <<n, it>> \in UNION {{<<n, it>> : it \in UNION {ItemsOf(n, k) : k \in KindsFor(n)}} : n \in Orders}}
+Init == \/ cfg \in {[op |-> "root", n |-> n, first |-> <<it>>] : <<n, it>> \in UNION {{<<n, it>> : it \in UNION {ItemsOf(n, k, "all") : k \in KindsFor(n)}} : n \in Orders}}
         \/ cfg \in {[op |-> "root", n |-> n, first |-> <<>>] : n \in Orders}
         \/ cfg \in {[op |-> "colroot", x |-> x] : x \in Columns}
         \/ cfg \in {[op |-> "col4", x |-> x] : x \in [1..4 -> ColVals]}
@@ -282,9 +309,9 @@ Init == \/ cfg \in {[op |-> "root", n |-> n, first |-> <<it>>] : <<n, it>> \in U
                      outer |-> RunOuter, inner |-> RunInner, data |-> RunData] : n \in Orders}
 Next == \/ /\ cfg.op = "root"
            /\ \/ cfg' = SpecState(cfg.n, cfg.first)
-              \/ /\ cfg.first # <<>> /\ cfg.first[1].kind \in PairKinds(cfg.n)
+              \/ /\ cfg.first # <<>> /\ cfg.first[1].kind \in PairKinds(cfg.n) /\ IsEndsOrder(cfg.first[1].modes)
                  /\ cfg' \in {SpecState(cfg.n, cfg.first \o <<it>>) :
-                                it \in UNION {ItemsOf(cfg.n, k) : k \in {k \in PairKinds(cfg.n) : KindIdx(k) > KindIdx(cfg.first[1].kind)}}}
+                                it \in UNION {ItemsOf(cfg.n, k, SecondKeyOrders) : k \in {k \in PairKinds(cfg.n) : KindIdx(k) > KindIdx(cfg.first[1].kind)}}}
         \/ /\ cfg.op = "colroot"
            /\ cfg' \in {[op |-> "cols", x |-> cfg.x, y |-> y] : y \in Columns}
 Spec == Init /\ [][Next]_cfg
